@@ -31,3 +31,6 @@ CHECKS['C13'] = (_SYMX + '; plain SIS reference semantics proved per path',
 CHECKS['C02'] = (_SYMX + '; Gillespie_SIS: law identities from branch conditions; fast_SIS: Poisson coupling against the plain reference semantics',
                  'Gillespie_SIS: per reachable state (<= E events) clock rate and event masses equal the SIS chain for all parameters; fast_SIS: on every path the history equals the plain contact-process semantics on harness-owned Poisson streams, draws have the reference rates, unsampled contacts provably irrelevant',
                  'floats as reals; graphs <= 3 (4) nodes; <= 3 (5) events / <= 3 (4) episodes; L2 memorylessness; generic position of contact times', 'DESIGN.md 6/C02')
+CHECKS['C15'] = (_SYMX + '; reference chain maintained from the chooser answers, law identities decided by z3',
+                 'for four user-model families, per reachable state: clock rate = sum of user rates on the current statuses, candidate weights = those rates, callbacks always see the current statuses, new status = chooser answer, stop iff all rates vanish, counts track statuses',
+                 'floats as reals; graphs <= 3 (4) nodes; <= 3 (4) events; weighted candidate set via its abstraction (C16)', 'DESIGN.md 6/C15')
